@@ -122,7 +122,11 @@ def job_resolve(j):
                 adopted = sl.index(no.trade.strategy) if no.trade.strategy in sl else 99      # 99: a strategy object this instance does not run
                 orders.append(no)   # from now on it is a local order
                 hit = []
-            res.append({"ref": cps(ref), "order": hit[0] if hit else None, "strategy": adopted,
+            # the settlement of the same bet (cleared-orders report, same reference) must reach the same local order
+            cleared = types.SimpleNamespace(customer_order_ref=ref, bet_id=co.bet_id, profit=1.0)
+            market.blotter.process_cleared_orders(types.SimpleNamespace(orders=[cleared]))
+            chit = [i for i, o in enumerate(orders) if getattr(o, "cleared_order", None) is cleared]
+            res.append({"ref": cps(ref), "order": hit[0] if hit else None, "strategy": adopted, "cleared": chit[0] if chit else None, "norders": len(orders),
                         "ids": [cps(o.id) for o in orders[:len(orders) - (1 if new else 0)]]})
         out.append({"hashes": [cps(s.name_hash) for s in sl], "res": res})
     return out
